@@ -25,6 +25,13 @@ def queue_rules(retry=3, streams=2, ring=3, extra=None):
     ]
 
 
+# Harnesses that never tear the queue down (handles are forgotten at the end) run with the body of
+# Arc<MultiQueue>::drop_slow / Arc<FutWait>::drop_slow removed (-> assert(false); assume(false)):
+# the last-reference path is unreachable there, but its symbolic refcount comparison otherwise drags
+# the whole destructor into every injected handle drop.  If the code under test ever did reach it,
+# the run fails loudly.  Harnesses flagged teardown=True keep the body.
+NO_TEARDOWN_CUT = [r'3Arc.*(10MultiQueue|7FutWait).*9drop_slow']
+
 DEFAULT = dict(unwind=4, rules=queue_rules(), mem_gb=16, timeout=900)
 
 ASSUMPTIONS = [
@@ -84,6 +91,8 @@ def config_for(name, tier="quick"):
     for k in ("unwind", "rules", "mem_gb", "timeout", "fp_restrict", "remove_bodies", "cbmc_extra"):
         if k in h:
             cfg[k] = h[k]
+    if not h.get("teardown") and "remove_bodies" not in h:
+        cfg["remove_bodies"] = NO_TEARDOWN_CUT
     if tier == "thorough":
         cfg["timeout"] = max(cfg["timeout"], h.get("timeout_thorough", 3600))
     return cfg
@@ -275,3 +284,64 @@ for n, w in (("c17_teardown_mp", "mpmc"), ("c17_teardown_bc_stream", "broadcast 
     H(n, M, "C17", ["C17", "C16", "C05"], "quick",
       w + ": build, optionally queue a value, drop every handle in a solver-chosen order with the REAL memory manager; allocation counters must return to zero; CBMC pointer checks on",
       "sequential; symbolic: queued value, senders-first, receiver order", rules=MEMRULES, fp_restrict=FP, builtin_oracle=True, unwind=6)
+
+# ---- C16 unit level (real MemoryManager + ReadCursor)
+for n, w, t in (("c16_protocol_seq", "sequential: 20 pre-loaded retirements, two writer scans, add_stream, remove_reader, final announce + retirement (reclamation cycle witnessed)", "quick"),
+                ("c16_protocol_o0", "writer's announce+scan preempted everywhere by the consumer's announce+add_stream / announce+remove_reader (retirements crossing the reclamation threshold)", "quick"),
+                ("c16_protocol_o1", "consumer's add_stream / remove_reader (incl. inside free/start_free/try_freeing) preempted everywhere by the writer's announce+scan", "quick"),
+                ("c16_protocol_idle_o0", "as o0 with a third registered token that never announces: nothing may be reclaimed", "thorough")):
+    H(n, M, "C16", ["C16", "C17"], t,
+      "REAL MemoryManager + ReadCursor on the harness stack, " + w + "; CBMC pointer checks are the oracle",
+      "20 pre-loaded retirements (threshold 20), 2 tokens, depth 1, budget 2", rules=MEMRULES, fp_restrict=FP, builtin_oracle=True, unwind=6, mem_gb=24)
+
+# ---- sequential histories
+S = "scen_seq"
+SEQRULES = queue_rules(retry=3, streams=3, ring=3, extra=[(r'ReadCursor::add_stream', 3), (r'ReadCursor::remove_reader', 3), (r'Vec.*clone|to_vec|retain|extend|spec_', 5)])
+for n, w, t in (("c09_mp_a1_d4", "mpmc N=2, alphabet 1 (send, recv, clone receiver, recv on clone, drop clone)", "quick"),
+                ("c09_bc_a1_d4", "broadcast N=1, alphabet 1", "thorough"),
+                ("c09_bc_a2_d4", "broadcast N=2, alphabet 2 (send, recv, add_stream, recv on new stream, unsubscribe)", "quick"),
+                ("c09_mp_a3_d4", "mpmc N=1, alphabet 3 (send, clone sender, send on clone, drop clone, drop sender, recv)", "quick"),
+                ("c09_bc_a3_d4", "broadcast N=2, alphabet 3", "thorough"),
+                ("c09_mp_a4_d4", "mpmc N=2, alphabet 4 (send, into_single, view, into_multi, recv, clone receiver)", "quick"),
+                ("c09_bc_a4_d4", "broadcast N=1, alphabet 4", "thorough"),
+                ("c09_bc_a5_d4", "broadcast N=2, alphabet 5 (send, recv, drop receiver, add_stream, recv on new stream, drop it)", "thorough")):
+    H(n, S, "C09", ["C09", "C13", "C07", "C11"], t, "symbolic history of 4 calls vs reference model: " + w, "depth 4, sequential", rules=SEQRULES)
+for n, cap, N in (("c03_fill_mp_c0", 0, 1), ("c03_fill_bc_c1", 1, 1), ("c03_fill_mp_c2", 2, 2), ("c03_fill_bc_c3", 3, 4), ("c03_fill_mp_c4", 4, 4),
+                  ("c03_fill_bc_c5", 5, 8), ("c03_fill_mp_c7", 7, 8), ("c03_fill_bc_c8", 8, 8), ("c03_fill_mp_c9", 9, 16)):
+    H(n, S, "C03", ["C03", "C09"], "quick", "requested capacity %d: exactly N=%d sends accepted, then Full with the same value; after k (symbolic) receives exactly k more" % (cap, N),
+      "sequential", rules=queue_rules(ring=N + 2))
+
+# ---- futures
+FU = "scen_fut"
+FUTRULES = queue_rules(retry=3, extra=[(r'FutWait.*spin|FutWait.*send_or_park', 3), (r'Stream.*poll|as futures::Stream>::poll', 4),
+                                       (r'VecDeque|vec_deque|Drain|drain|SmallVec|smallvec|extend', 4)])
+for n, w, t in (("c14_bc_poll_vs_send", "broadcast spins(0,0): stream task polls an empty queue, sink task start_sends at every preemption point of the poll", "quick"),
+                ("c14_mp_poll_vs_send", "mpmc N=1 spins(0,0): poll vs start_send", "thorough"),
+                ("c14_mp_send_vs_poll", "mpmc N=1 spins(0,0): sink task start_sends into a full queue, the stream task's poll frees a slot at every preemption point", "quick"),
+                ("c14_bc_send_vs_poll", "broadcast N=2 spins(0,0): start_send into a full queue vs poll", "thorough"),
+                ("c14_mp_send_vs_tryrecv", "mpmc N=1: start_send into a full queue vs a DIRECT try_recv that frees the slot", "quick"),
+                ("c14_bc_poll_vs_droptx", "broadcast: poll on an empty queue vs drop of the last sender", "quick"),
+                ("c14_mp_send_vs_droprx", "mpmc N=1: start_send into a full queue vs drop of the last receiver", "quick"),
+                ("c14_bc_two_polls", "broadcast: two stream tasks on one shared stream poll, sink task sends twice", "thorough"),
+                ("c14_bc_send_vs_upoll", "broadcast N=1: start_send into a full queue vs poll of the single-consumer (view) receiver", "thorough"),
+                ("c14_bc10_poll_vs_send", "broadcast spins(1,0): poll vs start_send", "thorough"),
+                ("c14_mp11_send_vs_poll", "mpmc spins(1,1): start_send into a full queue vs poll", "thorough")):
+    H(n, FU, "C14", ["C14", "C15"], t, w + "; parked-and-never-notified oracle at quiescence", "depth 1, budget 1-3, up to 2 ops per site", rules=FUTRULES)
+for n, w, t in (("c15_bc_hist_d4", "broadcast N=1 spins(0,0), depth 4", "quick"), ("c15_mp_hist_d4", "mpmc N=2 spins(0,0), depth 4", "quick"),
+                ("c15_bc10_hist_d3", "broadcast N=2 spins(1,0), depth 3", "thorough")):
+    H(n, FU, "C15", ["C15", "C09"], t, "symbolic history of start_send / poll / direct try_recv / direct try_send / drop sender / poll_complete inside a task vs the model: " + w,
+      "sequential", rules=FUTRULES)
+for n, r, t in (("c17_churn_r2", 2, "quick"), ("c17_churn_r3", 3, "thorough")):
+    H(n, M, "C17", ["C17", "C16"], t,
+      "REAL MemoryManager, %d rounds of 21 retirements; in every round a solver-chosen subset of the two registered handles announces; conservation oracle: retired == freed + pending at every round" % r,
+      "%d retirements, 2 tokens, sequential, symbolic lag pattern" % (21 * r + 1), rules=MEMRULES + [(r' @ src/scen_mem', 30)], fp_restrict=FP, builtin_oracle=True, unwind=6, mem_gb=24)
+H("c18_bc_shared_inclone_mw", T, "C18", ["C18", "C04", "C05", "C03"], "quick",
+  "broadcast shared stream, two live senders (multi-writer CAS path), instrumented payload: consumer A frozen in the middle of clone(); its sibling's try_recv and the producer's try_send (which reaches the pinned slot) must each finish in a bounded number of their own steps",
+  "N=2, injection only inside Clone, up to 3 ops at that site; retry loops bound 3 with unwinding assertions")
+for n, w in (("c05_bc_a2_d3", "broadcast N=1 alphabet 2"), ("c05_mp_a1_d3", "mpmc N=1 alphabet 1"), ("c05_bc_a5_d3", "broadcast N=1 alphabet 5"), ("c05_mp_a4_d3", "mpmc N=1 alphabet 4 (view drops in place)")):
+    H(n, S, "C05", ["C05", "C09"], "quick" if n in ("c05_bc_a2_d3", "c05_mp_a4_d3") else "thorough",
+      "symbolic history of 3 calls with the instrumented payload, then teardown of every handle: every payload and clone dropped exactly once; " + w,
+      "depth 3, sequential, teardown checked", rules=SEQRULES, teardown=True)
+for n in ("c04_bc_shared_inclone", "c04_bc_streams_inclone", "c04_bc_view_inview", "c04_mp_view_inview", "c04_bc_shared_all", "c05_mp_shared_all",
+          "c06_bc_sibdrop_inclone", "c18_bc_shared_inclone_mw", "c17_teardown_mp", "c17_teardown_bc_stream", "c17_teardown_bc_clone"):
+    HARNESSES[n]["teardown"] = True
